@@ -65,4 +65,12 @@ pub(crate) mod verif_mem {
             }
         }
     }
+
+    /// Replaces `Heap::collect_if_required` in harnesses whose subject is not the collector: in the
+    /// optimised configuration no collection is due for the few hundred bytes they allocate (asserted),
+    /// so the no-op is exactly what the real function does there. Without it every allocation whose
+    /// byte count CBMC cannot constant-fold drags a whole mark/sweep over `dyn GcManaged` into the formula.
+    pub(crate) fn collect_if_required_stub(h: &mut Heap) {
+        assert!(h.bytes_allocated < h.collection_threshold, "verif: no collection is due in this harness");
+    }
 }
